@@ -205,3 +205,89 @@ pub fn asm_step_abstract_k6() {
 pub fn asm_step_abstract_k12() {
     abstract_step_equiv(12)
 }
+
+// ---- long steps: a counter-shaped edge function ----------------------------------------------
+//
+// The longest step of the real machine is DIV with quotient 255: 2*255 + 5 micro-steps plus a
+// few waits (< 530 edges).  To cover steps of that length the edge is replaced by a counter
+// automaton: the machine sits at a boundary word until edge number LEAVE, is inside an
+// instruction until edge number BACK, and may halt at edge number HALT (all symbolic); the edge
+// count is kept in R1:R2.  Steps of up to 1100 edges are covered.
+
+#[cfg(kani)]
+static mut LEAVE: u16 = 0;
+#[cfg(kani)]
+static mut BACK: u16 = 0;
+#[cfg(kani)]
+static mut HALT: u16 = 0;
+#[cfg(kani)]
+static mut HALT_KIND: u8 = 0;
+
+#[cfg(kani)]
+fn count_of(m: &emulator_2a_lib::machine::RawMachine) -> u16 {
+    (m.verif_ir() as u16) << 8 | m.verif_last_bus_read() as u16
+}
+
+#[cfg(kani)]
+pub fn counter_edge(m: &mut emulator_2a_lib::machine::RawMachine) {
+    unsafe {
+        // the edge count lives in two scalar fields (IR : bus latch)
+        let c = count_of(m).wrapping_add(1);
+        m.verif_set_ir((c >> 8) as u8);
+        m.verif_set_last_bus_read(c as u8);
+        // word 0x006 is a fetch word (instruction boundary), word 0x000 is not
+        let inside = c >= LEAVE && c < BACK;
+        m.verif_set_micro_address(if inside { 0x000 } else { 0x006 });
+        if c == HALT {
+            m.verif_set_state(st_of(HALT_KIND));
+        }
+    }
+}
+
+#[cfg(kani)]
+fn long_step(max: u16) {
+    let leave: u16 = kani::any();
+    let back: u16 = kani::any();
+    let halt: u16 = kani::any();
+    let kind: u8 = kani::any();
+    let c0: u16 = kani::any();
+    kani::assume(leave >= 1 && leave <= 4 && back > leave && back <= max && kind >= 1 && kind <= 2);
+    kani::assume(c0 < back);
+    unsafe {
+        LEAVE = leave;
+        BACK = back;
+        HALT = halt;
+        HALT_KIND = kind;
+    }
+    let mut m = Machine::new(MachineConfig::default());
+    m.raw_mut().verif_set_ir((c0 >> 8) as u8);
+    m.raw_mut().verif_set_last_bus_read(c0 as u8);
+    let inside = c0 >= leave && c0 < back;
+    m.raw_mut().verif_set_micro_address(if inside { 0x000 } else { 0x006 });
+    // closed-form reference: edges are issued until the first count c > c0 that is a halt or,
+    // once the boundary has been left, a boundary again
+    let stop_at = if halt > c0 && halt < back { halt } else { back };
+    m.set_step_mode(StepMode::Assembly);
+    m.trigger_key_clock();
+    let c = count_of(&m);
+    assert!(c == stop_at, "the step issues exactly the edges up to the next boundary or halt: never more, never less");
+    assert!(m.state() != State::Running || m.is_instruction_done(), "a step ends at an instruction boundary unless halted");
+    kani::cover!(c - c0 > max / 2, "a long step");
+    kani::cover!(halt > c0 && halt < back, "halt inside the step");
+}
+
+#[cfg(kani)]
+#[kani::proof]
+#[kani::stub(emulator_2a_lib::machine::RawMachine::trigger_clock_edge, counter_edge)]
+#[kani::unwind(565)]
+pub fn asm_step_long_k560() {
+    long_step(560)
+}
+
+#[cfg(kani)]
+#[kani::proof]
+#[kani::stub(emulator_2a_lib::machine::RawMachine::trigger_clock_edge, counter_edge)]
+#[kani::unwind(105)]
+pub fn asm_step_long_k100() {
+    long_step(100)
+}
